@@ -49,11 +49,12 @@ type Stats struct {
 	ByStatus     map[string]int `json:"by_status"`
 	ByStore      map[string]int `json:"by_store"`
 	ByTag        map[string]int `json:"by_tag"`
-	Notes        []string       `json:"notes"`        // Layer-B side conditions that failed (harness-side)
-	NoteCases    []int          `json:"note_cases"`   // indices (into cases.jsonl) of cases with notes
-	Panics       []int          `json:"panic_cases"`  // indices of cases in which the emulator panicked
+	Notes        []string       `json:"notes"`       // Layer-B side conditions that failed (harness-side)
+	NoteCases    []int          `json:"note_cases"`  // indices (into cases.jsonl) of cases with notes
+	Panics       []int          `json:"panic_cases"` // indices of cases in which the emulator panicked
 	Samples      []Case         `json:"samples"`
 	Files        []string       `json:"files"`
+	Skipped      int            `json:"skipped"` // cases not executed because the implementation kept wedging
 	Exhaustive   bool           `json:"exhaustive"`
 	Rule         string         `json:"rule"`
 	GenCollision int            `json:"generation_collisions"`
@@ -62,27 +63,27 @@ type Stats struct {
 type variantBuf struct {
 	checker  string
 	caseType string
-	cur     []string
-	curIdx  []int
+	cur      []string
+	curIdx   []int
 }
 
 type Sink struct {
-	dir      string
-	prelude  string
-	checker  string // Coq function applied to the case list
-	oracle   string // optional Layer-B oracle applied to the case list
-	fsVariant bool  // evaluate file-store cases with the file-store model (check_all_fs)
-	caseType string
-	perFile  int
-	cur      []string
-	curIdx   []int
-	curV     map[string]*variantBuf // additional shard streams (e.g. "fs": file-store model)
-	fileNo   int
-	jsonl    *os.File
-	seen     map[string]int // canonical text -> first index
-	n        int
-	stats    *Stats
-	index    [][]int // per file: global case index of each entry
+	dir       string
+	prelude   string
+	checker   string // Coq function applied to the case list
+	oracle    string // optional Layer-B oracle applied to the case list
+	fsVariant bool   // evaluate file-store cases with the file-store model (check_all_fs)
+	caseType  string
+	perFile   int
+	cur       []string
+	curIdx    []int
+	curV      map[string]*variantBuf // additional shard streams (e.g. "fs": file-store model)
+	fileNo    int
+	jsonl     *os.File
+	seen      map[string]int // canonical text -> first index
+	n         int
+	stats     *Stats
+	index     [][]int // per file: global case index of each entry
 }
 
 func NewSink(dir, prelude, caseType, checker string, perFile int) *Sink {
